@@ -265,8 +265,9 @@ def cli_c01_sample(bins, tier, seed):
             if fx.monorail(["checkpoint", "update"])["rc"] != 0:
                 raise vlib.ToolError("checkpoint update failed")
             def ask(step):
-                full = fx.monorail(["analyze", "--all"])
+                # the plain question first: whatever an earlier invocation left behind is then still what it finds
                 plain = fx.monorail(["analyze"])
+                full = fx.monorail(["analyze", "--all"])
                 cfg = runlib.cfg_abs(fx.targets)
                 if full["rc"] != 0 or not isinstance(full["out"], dict):
                     recs.append({"ev": "analyze", "config": cfg, "changes": [], "out": {"ok": False, "err": fx.err_type(full)[0] or "other", "msg": ""}, "via": "cli", "step": step})
